@@ -26,7 +26,7 @@ import z3
 
 from pyvc.core import (SV, SBool, SInt, SSeq, Obj, Val, VNone, BoolS, IntS, to_val, to_int, to_bool_term, cls_of, sub, cls_const,
                        class_axioms, Stub, PyRaise, Unsupported)
-from pyvc.driver import Ob
+from pyvc.driver import Ob, cover_hyps
 from pyvc.interp import Interp
 from pyvc.builtins_model import install
 from props import c05, c09, c11
@@ -84,7 +84,7 @@ def evaluate_obligations(chk):
         chk.add(Ob(func, names[0], pid, hy + [cls_of(ref) != FWD], r == ref))
         chk.add(Ob(func, names[1], pid, hy + [cls_of(ref) == FWD, evd(ref)], r == val_of(ref)))
     if results:
-        chk.add(Ob(func, "cover", "pre", results[0][0].hyps, z3.BoolVal(True), expect="sat"))
+        chk.add(Ob(func, "cover", "pre", cover_hyps(results), z3.BoolVal(True), expect="sat"))
     chk.trusted.update(I.assumed_used)
 
 
